@@ -41,7 +41,7 @@ func (p *Prog) ghost(name string) *GhostVar {
 func newVC(prog *Prog, fn *ssa.Function, fc *FuncContract, reg *KeyRegistry, discovery bool) *VC {
 	vc := &VC{prog: prog, fn: fn, fc: fc, reg: reg, discovery: discovery,
 		params: map[string]*SV{}, used: map[string]bool{}, unmod: map[string]bool{}, callSeq: map[string]int{},
-		oblNames: map[string]int{}, typeTags: map[string]int{}, boxed: map[*Term]Val{}, strDone: map[*Term]bool{}, inlineLimit: 60}
+		oblNames: map[string]int{}, typeTags: map[string]int{}, boxed: map[*Term]Val{}, boxedType: map[*Term]types.Type{}, strDone: map[*Term]bool{}, inlineLimit: 60}
 	vc.A0 = Var("A0", IntSort)
 	vc.allocBase = vc.A0
 	vc.allocBases = map[*Term]bool{vc.A0: true}
@@ -337,7 +337,7 @@ func VerifyLemma(prog *Prog, lm *Lemma) (res *FuncResult) {
 	strLits, strLitOrder = map[string]*Term{}, nil
 	reg := NewKeyRegistry()
 	vc := &VC{prog: prog, reg: reg, params: map[string]*SV{}, used: map[string]bool{}, unmod: map[string]bool{}, callSeq: map[string]int{},
-		oblNames: map[string]int{}, typeTags: map[string]int{}, boxed: map[*Term]Val{}, strDone: map[*Term]bool{}}
+		oblNames: map[string]int{}, typeTags: map[string]int{}, boxed: map[*Term]Val{}, boxedType: map[*Term]types.Type{}, strDone: map[*Term]bool{}}
 	vc.A0 = Var("A0", IntSort)
 	vc.allocBase = vc.A0
 	vc.allocBases = map[*Term]bool{vc.A0: true}
